@@ -646,8 +646,9 @@ class ApplicationEntity:
                 "before associating with a peer"
             )
 
-        # Set using a copy of the original to play nicely
-        contexts = deepcopy(contexts)
+        # Set using a copy of the original to play nicely, one copy per item
+        #   so that a context requested more than once gets its own ID
+        contexts = [deepcopy(cx) for cx in contexts]
 
         # Add the context IDs
         for ii, context in enumerate(contexts):
